@@ -6,6 +6,7 @@ package known
 
 import (
 	"grol.io/grol/ast"
+	"grol.io/grol/token"
 	"strings"
 	"verif/gen"
 	"verif/pbt"
@@ -199,6 +200,13 @@ func AstClasses(prog ast.Node) map[string]bool {
 			if p, ok := astPrec(x); ok && pbt.KnownOpen(RightAssocParens) {
 				if rp, ok2 := astPrec(x.Right); ok2 && rp == p {
 					res[RightAssocParens] = true
+				}
+			}
+		case *ast.IndexExpression:
+			// ast.Modify does not descend into what follows a dot (a field name), the printer does: "A.(for 0 {0+(0+0)})"
+			if x.Token != nil && x.Type() == token.DOT && x.Index != nil {
+				for k := range AstClasses(x.Index) {
+					res[k] = true
 				}
 			}
 		}
